@@ -245,7 +245,7 @@ def plan(tier):
             dict(name='merge-triples', fn='h_algebra', depth=9, budget_s=180, cfg=dict(K=1, total=2, triples=True, ops=['merge']),
                  bounds='merge of 2 or 3 signatures with <=1 named parameter each, <=2 in total (provenance through an n-ary merge)',
                  min_nontrivial=500, must_reach=['exactly-the-declaring-inputs']),
-            dict(name='discovery-grammar', fn='h_discovery', depth=10, budget_s=300, cfg=_c06.QUICK, bounds=_c06.QUICK_BOUNDS,
+            dict(name='discovery-grammar', fn='h_discovery', depth=10, budget_s=900, cfg=_c06.QUICK, bounds=_c06.QUICK_BOUNDS,
                  min_nontrivial=500, must_reach=['well-formed', 'outermost-has-depth-0', 'callee-deeper-than-wrapper']),
             dict(name='corpus-quick', fn='h_corpus', depth=8, budget_s=200, cfg=dict(thorough=False),
                  bounds='every callable reachable from 21 modules (finite corpus)', min_nontrivial=200),
